@@ -225,7 +225,8 @@ fn c04(ms: &ModelSnap, model: &AutosarModel, d: &Derived, out: &mut Vec<Viol>) {
         }
     }
     for (i, n) in ms.nodes.iter().enumerate() {
-        if n.identifiable {
+        // an element whose SHORT-NAME has no text (only a lenient load of a damaged document produces that) has no path
+        if n.identifiable && n.cpath.is_some() {
             if ms.by_elem.get(&n.e) != Some(&i) {
                 continue;
             }
